@@ -24,7 +24,9 @@ def main():
     for d in sorted(glob.glob(os.path.join(VERIF,"seeded","C*",""))):
         try: meta=json.load(open(d+"meta.json"))
         except Exception: continue
-        if prop in (meta.get("detected_by") or {}):
+        if meta.get("obsolete_since"):
+            continue  # the change no longer breaks the property on the repaired tree (reason in its meta.json)
+        if prop in (meta.get("detected_by") or {}) and (meta.get("detected_by") or {}).get(prop):
             muts.append({"id":"seed:"+meta["id"],"prop":prop,"expect":"ANY","patch":d+"patch.diff","edits":[]})
     if muts:
         tmp=tempfile.mkdtemp(prefix=f"exo-ctl-{prop}-")
